@@ -13,7 +13,8 @@ with ``"foreign": {...}`` instead of ``"n"`` the initial object is the conversio
 else) described by its node list and edge list, and ``["reconvert", ...]`` replaces the object by a conversion in the
 middle of the history, see the conversion section; ``["fork", method, param]`` adds a copy of the object to the live
 objects of the history and ``["switch", k]`` addresses the following operations to live object k, see the copies
-section).
+section; ``["live_batch", shape, arg, "gen"|"iterable"]`` is add_edges_from of an iterable that reads and changes the
+same graph while it is consumed, see the live batches section).
 run_case replays the log on
 a fresh object and on the model of vlib/graphmodel.py (vertex count + Python set of
 edges) and compares every public view with the model after every step; at the end
@@ -83,6 +84,12 @@ ASSUMPTIONS = [
     "from_networkx / readGraph; the name of the graph is not compared",
     "gray: a self-loop in a networkx graph given to DirectedGraph is kept (is_dag() False) or refused with ValueError, "
     "as for add_edge; a conversion is expected to leave its argument as it was (nodes, attributes, edges)",
+    "live batches (operation live_batch): add_edges_from(iterable) inserts the pairs one by one (its code is a plain "
+    "loop over add_edge), so an iterable that calls add_edge / remove_edge / update_vertex_number / number_of_edges / "
+    "has_edge / edges() on the same graph between two pairs is a legal history step whose effects happen in the order "
+    "of the calls, exactly as if the steps had been issued one by one: a pair handed out is in the graph when the "
+    "iterable is asked for the next one, and the counters are up to date between two pairs; such an iterable never "
+    "hands out a pair that must be refused, and the iterable must be read to its end exactly once",
 ]
 
 NMAX = 12          # vertex growth is capped so that the cost of a step stays bounded
@@ -181,7 +188,7 @@ def run_case(case):
             gm.check_views(G, M, ctx)
             looked_last = False
             continue
-        if not hasattr(G, 'add_edges_from' if op[0] == 'add_batch' else op[0]):
+        if not hasattr(G, 'add_edges_from' if op[0] in ('add_batch', 'live_batch') else op[0]):
             labels.add('operation-not-offered')
             continue
         looked_last = False
@@ -192,10 +199,26 @@ def run_case(case):
             got = _apply_batch(G, M, op, ctx)
             if 'batch-refused' in got:
                 refused_batch_at = i
+        elif op[0] == 'live_batch':
+            got = _live_run(G, M, op, ctx)
+            if 'live-batch' in got:
+                if S.get('live'):
+                    labels.add('live-batch-after-live-batch')
+                S['live'] = True
+                if grown:
+                    labels.add('live-batch-after-growth')
+                if many:
+                    labels.add('live-batch-with-several-live-objects')
+                if held:
+                    labels.add('live-batch-with-held-views')
         else:
             got = gm.apply_op(G, M, op, ctx)
             if refused_batch_at is not None and op[0] == 'add_edge':
                 labels.add('add_edge-after-refused-batch')
+            if S.get('live'):
+                for ev in ('inserted', 'removal', 'growth', 'refused', 'duplicate'):
+                    if ev in got:
+                        labels.add('live-batch-then-' + ev)
         labels |= got
         if 'growth' in got:
             grown = True
@@ -211,7 +234,7 @@ def run_case(case):
                     labels.add('converted-then-' + ev)
             if 'duplicate' in got and op[0] == 'add_edge' and M.norm(op[1], op[2]) in converted_edges:
                 labels.add('converted-then-duplicate-of-a-converted-edge')
-            if 'removal' in got and M.norm(op[1], op[2]) in converted_edges:
+            if 'removal' in got and op[0] == 'remove_edge' and M.norm(op[1], op[2]) in converted_edges:
                 labels.add('converted-then-removal-of-a-converted-edge')
         gm.check_views(G, M, ctx)
         for h in held:
@@ -257,6 +280,9 @@ def _show(op):
     if op[0] in ('add_edges_from', 'add_batch'):
         return "add_edges_from({}{})".format(op[1], {'iter': ' as iterator', 'tuple': ' as tuple'}.get(
             op[2] if len(op) > 2 else 'list', ''))
+    if op[0] == 'live_batch':
+        return "add_edges_from({} '{}' {} reading and changing the graph)".format(
+            'an iterable object, shape' if len(op) > 3 and op[3] == 'iterable' else 'a generator, shape', op[1], op[2])
     if op[0] == 'hold':
         return "hold {}{} ({})".format(op[1], '({})'.format(op[2]) if op[1] in _HOLD_WITH_ARG else '()', op[3])
     if op[0] == 'consult':
@@ -1023,15 +1049,247 @@ def _reconvert(G, M, op, ctx):
 
 
 # ---------------------------------------------------------------------------
+# live batches: add_edges_from(iterable) where the iterable looks at, or changes, the SAME graph while it is read
+#
+#   ["live_batch", shape, arg, "gen"|"iterable"]     G.add_edges_from(<a generator> | <an object whose __iter__ is one>)
+#
+# add_edges_from inserts the pairs one by one, so whatever the iterable does to the graph between two pairs is a
+# sequence of ordinary steps.  The model is updated in the order of the calls - a pair handed out is in the graph
+# when the iterable is asked for the next one - exactly as if the steps had been issued one by one; every answer the
+# iterable gets from the graph is compared with the model as it is at that moment, and after the call every view is.
+# The shapes are small programs over the graph AS IT IS when the step is reached (so the step can stand anywhere):
+#
+#   'subdivide' [k, order]   Graph: for up to k edges {u,v} of the graph (sorted / reversed / every second / from the
+#                            middle): remove_edge(u,v) (either orientation), update_vertex_number(n+1), hand out (u,w)
+#                            and (w,v) for the new vertex w, asking has_edge / number_of_edges in between
+#   'chords'    [pairs, mask] all classes: pair i is inserted by the iterable itself with add_edge (bit i of mask set)
+#                            or handed out
+#   'query'     [pairs]      all classes: hands out every pair; in between number_of_edges(), has_edge of the pair just
+#                            handed out (both orientations), len(edges()) and, half way, every view (check_views)
+#   'toggle'    [pairs]      Graph: an edge that is there is removed and (every second one) handed out again; an edge
+#                            that is not there is handed out and (every third one) removed when the next is asked for
+#   'grow'      [k]          Graph: update_vertex_number(n+k) first, then edges on the new vertices are handed out, one
+#                            more vertex, one more edge
+# A pair that add_edge must refuse is never handed out (a refused batch is the business of add_edges_from/add_batch):
+# the iterable tries it itself (ValueError expected, nothing changes) and goes on; loops of directed graphs are skipped.
+# The vertex count never exceeds LIVE_NMAX.
+
+LIVE_NMAX = 16
+LIVE_SHAPES = {'Graph': ('subdivide', 'chords', 'query', 'toggle', 'grow'),
+               'DirectedGraph': ('chords', 'query'), 'BipartiteGraph': ('chords', 'query')}
+
+
+def _shape_subdivide(M, arg, call):
+    k, order = arg[0], arg[1]
+    E = sorted(M.E)
+    E = [E, E[::-1], E[::2], E[len(E) // 2:] + E[:len(E) // 2]][order % 4]
+    for i, (u, v) in enumerate(E[:k]):
+        if M.n >= LIVE_NMAX:
+            break
+        if i % 2:
+            u, v = v, u
+        call('remove_edge', u, v)
+        w = M.n + 1
+        call('update_vertex_number', w)
+        yield (u, w)
+        if i % 3 == 0:
+            call('has_edge', w, u)
+            call('number_of_edges')
+        yield (w, v)
+        call('has_edge', u, v)
+    call('number_of_edges')
+
+
+def _shape_chords(M, arg, call):
+    pairs, mask = arg[0], arg[1]
+    for i, (u, v) in enumerate(pairs):
+        if (mask >> i) & 1:
+            call('add_edge', u, v)
+        else:
+            yield (u, v)
+    call('number_of_edges')
+
+
+def _shape_query(M, arg, call):
+    pairs = arg[0]
+    for i, (u, v) in enumerate(pairs):
+        call('number_of_edges')
+        yield (u, v)
+        call('has_edge', u, v)
+        if M.kind != 'bipartite':
+            call('has_edge', v, u)
+        if i % 2:
+            call('len_edges')
+        if i == len(pairs) // 2:
+            call('views')
+    call('number_of_edges')
+    call('len_edges')
+
+
+def _shape_toggle(M, arg, call):
+    pairs = arg[0]
+    for i, (u, v) in enumerate(pairs):
+        if M.classify(u, v) != 'ok':
+            continue
+        if M.has(u, v):
+            call('remove_edge', v, u)
+            if i % 2 == 0:
+                yield (u, v)
+        else:
+            yield (u, v)
+            if i % 3 == 0:
+                call('remove_edge', u, v)
+    call('number_of_edges')
+
+
+def _shape_grow(M, arg, call):
+    n0 = M.n
+    k = min(arg[0], LIVE_NMAX - n0)
+    if k >= 1:
+        call('update_vertex_number', n0 + k)
+        yield (n0 + 1, n0 + k) if k >= 2 else (1, n0 + 1)
+        yield (n0 + k, 1)
+        call('has_edge', 1, n0 + k)
+        if M.n < LIVE_NMAX:
+            call('update_vertex_number', M.n + 1)
+            yield (M.n, n0 + 1)
+    call('number_of_edges')
+
+
+_SHAPES = {'subdivide': _shape_subdivide, 'chords': _shape_chords, 'query': _shape_query, 'toggle': _shape_toggle,
+           'grow': _shape_grow}
+
+
+class _LiveIterable:
+    """an iterable that is not an iterator: add_edges_from has to ask it for one"""
+
+    def __init__(self, make):
+        self._make = make
+        self.asked = 0
+
+    def __iter__(self):
+        self.asked += 1
+        return self._make()
+
+
+def _live_run(G, M, op, ctx):
+    """Executes the step on G and on the model; with G None only on the model (the generators of histories aim the
+    later steps with it).  Returns the labels of what happened."""
+    shape, arg = op[1], op[2]
+    how = op[3] if len(op) > 3 else 'gen'
+    labels = set(['live-batch', 'live:' + shape, 'live-how-' + how, 'batch'])
+    state = {'pending': None, 'taken': 0, 'problem': None, 'harness': None, 'finished': False}
+
+    def flush():
+        p = state['pending']
+        if p is not None:
+            state['pending'] = None
+            e = M.norm(*p)
+            if e in M.E:
+                labels.add('duplicate')
+            else:
+                M.E.add(e)
+                M.inserted_total += 1
+                labels.add('inserted')
+
+    def call(name, *args):
+        where = "{} / inside the iterable, after {} pairs were handed out, {}({})".format(
+            ctx, state['taken'], name, ','.join(map(str, args)))
+        if name in ('add_edge', 'remove_edge', 'update_vertex_number'):
+            if name == 'add_edge' and M.classify(*args) == 'gray':
+                return
+            if G is None:
+                if name == 'add_edge':
+                    _gen_insert(M, *args)
+                elif name == 'remove_edge':
+                    M.E.discard(M.norm(*args))
+                elif args[0] > M.n:
+                    M.n = args[0]
+                return
+            got = gm.apply_op(G, M, [name] + list(args), where)
+            labels.update(got)
+            for ev, lab in (('inserted', 'live-insertion-by-the-iterable'), ('removal', 'live-removal-by-the-iterable'),
+                            ('growth', 'live-growth-by-the-iterable'), ('refused', 'live-refused-call-by-the-iterable')):
+                if ev in got:
+                    labels.add(lab)
+            return
+        if G is None:
+            return
+        labels.add('live-query-by-the-iterable')
+        if name == 'number_of_edges':
+            got, want = gm._view(where, 'number_of_edges()', G.number_of_edges), len(M.E)
+        elif name == 'len_edges':
+            got, want = gm._view(where, 'len(edges())', lambda: len(G.edges())), len(M.E)
+        elif name == 'has_edge':
+            got, want = bool(gm._view(where, 'has_edge', G.has_edge, *args)), M.has(*args)
+        elif name == 'views':
+            gm.check_views(G, M, where, networkx_too=False)
+            return
+        else:
+            raise KeyError(name)
+        if got != want:
+            raise Violation("{} answers {} instead of {} | model at that moment: {}".format(where, got, want, M.describe()))
+
+    def source():
+        try:
+            it = _SHAPES[shape](M, arg, call)
+            while True:
+                flush()             # the pair handed out last is in the graph by now
+                try:
+                    pair = next(it)
+                except StopIteration:
+                    break
+                c = M.classify(*pair)
+                if c == 'gray':
+                    continue
+                if c == 'bad':
+                    call('add_edge', *pair)
+                    continue
+                state['pending'] = tuple(pair)
+                state['taken'] += 1
+                yield tuple(pair)
+            state['finished'] = True
+        except Violation as v:
+            state['problem'] = v
+        except Exception as e:   # noqa - a defect of the harness must not pass for one of the tree
+            state['harness'] = e
+
+    if shape not in LIVE_SHAPES[M.clsname]:
+        return set(['live-shape-not-offered'])
+    if G is None:
+        for _ in source():
+            pass
+        return labels
+    src = _LiveIterable(source) if how == 'iterable' else source()
+    ok, res = gm._call(ctx, G.add_edges_from, src)
+    if state['harness'] is not None:
+        raise state['harness']
+    if state['problem'] is not None:
+        raise state['problem']
+    if not ok:
+        raise Violation("{}: the iterable hands out legal insertions only, yet add_edges_from raised ValueError({}) after {} "
+                        "pairs | model: {}".format(ctx, res, state['taken'], M.describe()))
+    if not state['finished']:
+        raise Violation("{}: add_edges_from returned before the iterable was read to its end ({} pairs taken) | model: {}".format(
+            ctx, state['taken'], M.describe()))
+    if how == 'iterable' and src.asked != 1:
+        raise Violation("{}: add_edges_from asked the iterable for {} iterators".format(ctx, src.asked))
+    if state['taken'] >= 2:
+        labels.add('live-2-pairs-taken')
+    return labels
+
+
+# ---------------------------------------------------------------------------
 # generated histories
 
 WEIGHTS = {
     'Graph': ['add_edge'] * 9 + ['remove_edge'] * 4 + ['add_edges_from'] * 3 + ['update_vertex_number'] * 3 +
-             ['hold'] * 2 + ['consult'] * 3 + ['grow-and-join', 'reconvert'] + ['fork'] * 3 + ['switch'] * 4,
+             ['hold'] * 2 + ['consult'] * 3 + ['grow-and-join', 'reconvert'] + ['fork'] * 3 + ['switch'] * 4 +
+             ['live_batch'] * 3,
     'DirectedGraph': (['add_edge'] * 7 + ['add_edges_from'] * 2 + ['hold', 'consult', 'consult']) * 2 + ['reconvert'] +
-                     ['fork'] * 3 + ['switch'] * 4,
+                     ['fork'] * 3 + ['switch'] * 4 + ['live_batch'] * 2,
     'BipartiteGraph': (['add_edge'] * 7 + ['add_edges_from'] * 2 + ['hold', 'consult', 'consult']) * 2 + ['reconvert'] +
-                      ['fork'] * 3 + ['switch'] * 4,
+                      ['fork'] * 3 + ['switch'] * 4 + ['live_batch'] * 2,
 }
 _F_METHOD = st.sampled_from(FORK_METHODS + ('deepcopy', 'pickle', 'file'))
 _B_BIG = st.integers(0, 10 ** 6)           # positions and choices are drawn as a big integer modulo the number of options
@@ -1047,6 +1305,8 @@ _H_ARG = st.integers(0, 23)
 _H_MODE = st.sampled_from(['lazy', 'lazy', 'eager'])
 _H_WHICH = st.integers(0, MAX_HELD - 1)
 _H_GROW = st.integers(2, 3)
+_L_SHAPE = {c: st.sampled_from(LIVE_SHAPES[c] + (('subdivide', 'subdivide') if c == 'Graph' else ())) for c in LIVE_SHAPES}
+_L_HOW = st.sampled_from(['gen', 'gen', 'iterable'])
 
 
 def _draw_pair(draw, M):
@@ -1139,6 +1399,19 @@ def _draw_ops(draw, clsname, M, max_steps):
             a = draw(_B_BIG)
             ops.append(['reconvert', VIAS[a % 2], 1 + (a // 2) % 3, (a // 6) % 7 - 3, bool((a // 42) % 2),
                         bool((a // 84) % 2)])
+        elif name == 'live_batch':
+            shape = draw(_L_SHAPE[clsname])
+            a = draw(_B_BIG)
+            if shape == 'subdivide':
+                arg = [1 + a % 4, (a // 4) % 4]
+            elif shape == 'grow':
+                arg = [1 + a % 3]
+            else:
+                arg = [[list(_draw_pair(draw, M)) for _ in range(1 + draw(_N_PAIRS))]]
+                if shape == 'chords':
+                    arg.append(a % 64)
+            ops.append(['live_batch', shape, arg, draw(_L_HOW)])
+            _live_run(None, M, ops[-1], '')
         elif name == 'grow-and-join':
             # growth by 2 or 3 vertices and an edge between two of the new vertices
             k = draw(_H_GROW)
@@ -1237,6 +1510,8 @@ def _enumerate(clsname):
         for c in _view_histories(clsname, tier):
             yield c
         for c in _fork_histories(clsname, tier):
+            yield c
+        for c in _live_histories(clsname, tier):
             yield c
         for c in _foreign_sweep(clsname, tier):
             yield c
@@ -1368,6 +1643,71 @@ def _fork_histories(clsname, tier):
                             ops.append(['consult', 0])
                             ops.append(['switch', 0])
                             ops += scripts[c3](z0)
+                        c = {'cls': clsname, 'ops': ops, 'nx': {'mul': 1 + k % 2, 'add': k % 3 - 1, 'rev': bool(k % 4 >= 2)}}
+                        c.update(s)
+                        yield c
+
+
+def _live_variants(clsname):
+    if clsname == 'Graph':
+        P = [[1, 2], [2, 3], [3, 1], [1, 2], [2, 2], [1, 4], [4, 2]]
+        return [['subdivide', [9, 0]], ['subdivide', [2, 1]], ['subdivide', [1, 2]], ['subdivide', [3, 3]],
+                ['chords', [P, 0b0101010]], ['chords', [P, 0b1111111]], ['chords', [P, 0]], ['chords', [P[::-1], 0b0011001]],
+                ['query', [P]], ['query', [[[2, 1], [1, 3]]]], ['toggle', [P]], ['toggle', [[[1, 2], [2, 1], [1, 3], [3, 2], [1, 2]]]],
+                ['grow', [1]], ['grow', [2]], ['grow', [3]]]
+    if clsname == 'DirectedGraph':
+        P = [[1, 2], [2, 1], [2, 3], [1, 1], [3, 1], [1, 2], [4, 1]]
+    else:
+        P = [[1, 1], [1, 2], [2, 1], [3, 1], [1, 3], [1, 1], [2, 2]]
+    return [['chords', [P, 0b0101010]], ['chords', [P, 0b1111111]], ['chords', [P, 0]], ['chords', [P[::-1], 0b1100110]],
+            ['query', [P]], ['query', [P[:2]]]]
+
+
+def _live_histories(clsname, tier):
+    """[edge] script-a, [hold edges()], [FORK], LIVE BATCH, consult, script-b, [a second live batch], consult, [script-c on the
+    copy]: every pair (a, b) of the update scripts of the held-view histories from every start; the shapes of live batch
+    in rotation, two per pair (thorough: every shape for every pair); generator and iterable object alternate."""
+    scripts, starts, pre = _view_scripts(clsname)
+    variants = _live_variants(clsname)
+    k = 0
+    for s in starts:
+        for with_pre in (0, 1):
+            for a in range(len(scripts)):
+                for b in range(len(scripts)):
+                    k += 1
+                    for v in (range(len(variants)) if tier == 'thorough' else [k % len(variants), (k * 7 + 3) % len(variants)]):
+                        z = dict(s)
+                        ops = [list(o) for o in pre] if with_pre else []
+                        ops += scripts[a](z)
+                        if (k + v) % 3:
+                            ops.append(['hold', 'edges', 0, ('lazy', 'eager')[k % 2]])
+                        forked = (k + v) % 4 == 0
+                        if forked:
+                            ops.append(['fork', ('deepcopy', 'pickle', 'networkx')[k % 3], k % 6])
+                        live = ['live_batch', variants[v][0], variants[v][1], ('gen', 'iterable')[(k + v) % 2]]
+                        ops.append(live)
+                        if clsname == 'Graph':
+                            # the sizes the later scripts are aimed at: what the live batch makes of the model
+                            Z = gm.Model(clsname, n=z['n'])
+                            for o in ops:
+                                if o[0] == 'update_vertex_number':
+                                    Z.n = max(Z.n, o[1])
+                                elif o[0] == 'add_edge':
+                                    _gen_insert(Z, o[1], o[2])
+                                elif o[0] == 'remove_edge':
+                                    Z.E.discard(Z.norm(o[1], o[2]))
+                                elif o[0] == 'live_batch':
+                                    _live_run(None, Z, o, '')
+                            z['n'] = Z.n
+                        ops.append(['consult', 0])
+                        ops += scripts[b](z)
+                        if k % 2:
+                            w = variants[(v + 1 + k // 2) % len(variants)]
+                            ops.append(['live_batch', w[0], w[1], ('iterable', 'gen')[(k + v) % 2]])
+                        ops.append(['consult', 0])
+                        if forked:
+                            ops.append(['switch', 1])
+                            ops += scripts[(a + b + 1) % len(scripts)](dict(s))
                         c = {'cls': clsname, 'ops': ops, 'nx': {'mul': 1 + k % 2, 'add': k % 3 - 1, 'rev': bool(k % 4 >= 2)}}
                         c.update(s)
                         yield c
@@ -1649,6 +1989,34 @@ _FORK_LABELS = ['forked', 'fork:deepcopy', 'fork:pickle', 'fork:networkx', 'fork
                 'fork-while-a-view-is-held', 'fork-with-edges', 'shallow-copy-retired-at-first-change',
                 'call-without-effect-in-a-group-of-shallow-copies', 'change-of-one-object-others-checked',
                 'fork-file:kthlist', 'fork-file:gml', 'fork-file:dot']
+LIVE_RULE = ("LIVE BATCHES: the histories also contain `live_batch` steps (generated: about 1 step in 12 for Graph, 1 in 18 for the "
+             "other classes, at any point of the history, also on copies and with held views around; enumerated: from every "
+             "start [an edge] script a, [hold edges()], [fork], LIVE BATCH, consult, script b, [a second live batch], consult, "
+             "[script c on the copy] for every pair (a, b) of the 6-8 update scripts with the 15 (Graph) / 6 (other classes) "
+             "scripted shapes in rotation, thorough: every shape for every pair): add_edges_from(iterable) where the iterable - "
+             "a generator or an object whose __iter__ returns one - looks at and CHANGES THE SAME GRAPH between two pairs. "
+             "Shapes: subdivide (Graph; for 1..4 (enumerated up to 9) edges of the graph as it is, in sorted / reversed / "
+             "every-second / rotated order: remove_edge(u,v) in either orientation, update_vertex_number(n+1), hand out (u,w) "
+             "and (w,v), has_edge and number_of_edges asked in between), chords (1..6 pairs drawn like the arguments of "
+             "add_edge, each inserted by the iterable itself with add_edge or handed out, by a 6-bit mask), query (1..6 pairs "
+             "handed out; number_of_edges(), has_edge of the pair just handed out in both orientations, len(edges()) and, half "
+             "way, every view asked in between), toggle (Graph; present edges removed by the iterable and every second one "
+             "handed out again, absent ones handed out and every third one removed when the next pair is asked for), grow "
+             "(Graph; update_vertex_number(n+1..3) by the iterable, then edges on the new vertices, one more vertex, one more "
+             "edge); vertex count capped at 16; pairs that must be refused are tried by the iterable itself (ValueError, "
+             "nothing changes), never handed out. Oracle: add_edges_from inserts the pairs one by one, so the effects happen in "
+             "the order of the calls exactly as if the steps had been issued one by one - the model is updated call by call (a "
+             "pair handed out is in the graph when the next one is asked for), every answer the iterable gets is compared with "
+             "the model at that moment, the call must read the iterable to its end, once, without ValueError, and afterwards "
+             "(and after every later step) every view - number_of_edges, len(edges()), the listing, degrees, neighbours, "
+             "has_edge, the networkx copy, held views, the other live objects - must agree with the model. ")
+_LIVE_LABELS = ['live-batch', 'live:chords', 'live:query', 'live-how-gen', 'live-how-iterable', 'live-2-pairs-taken',
+                'live-insertion-by-the-iterable', 'live-query-by-the-iterable', 'live-refused-call-by-the-iterable',
+                'live-batch-then-inserted', 'live-batch-then-duplicate', 'live-batch-then-refused',
+                'live-batch-after-live-batch', 'live-batch-with-held-views', 'live-batch-with-several-live-objects']
+_LIVE_LABELS_SIMPLE = ['live:subdivide', 'live:toggle', 'live:grow', 'live-removal-by-the-iterable',
+                       'live-growth-by-the-iterable', 'live-batch-then-removal', 'live-batch-then-growth',
+                       'live-batch-after-growth']
 _VIEW_LABELS = ['view-held', 'view-consulted', 'held:edges', 'held:nbrs', 'held-eager', 'held-lazy',
                 'held-edge-view-consulted', 'consult-after-insertion', 'consult-after-batch', 'consult-after-refused-call',
                 'looked-at-again-after-a-change', 'view-held-at-0-vertices']
@@ -1660,7 +2028,7 @@ SUBCHECKS = [
                   "add_edges_from (half of them with a forbidden pair in the middle, list or iterator) / "
                   "update_vertex_number(-1..n+3, capped at 12), arguments legal, already present (either "
                   "orientation) or anything in -1..n+2; plus every history of length <=2 (thorough <=3) over 39 "
-                  "operations from n=0,1,2. " + COMMON_RULE + VIEW_RULE + FOREIGN_RULE + FORK_RULE +
+                  "operations from n=0,1,2. " + COMMON_RULE + VIEW_RULE + FOREIGN_RULE + FORK_RULE + LIVE_RULE +
                   "Non-trivial: >=5 successful insertions and a removal after a growth.",
              required_labels=['refused', 'refused-nothing-changed', 'duplicate', 'duplicate-other-orientation',
                               'removal', 'removal-other-orientation', 'remove-absent', 'growth',
@@ -1673,13 +2041,13 @@ SUBCHECKS = [
              _NUMBERING_LABELS + ['foreign-selfloop-refused', 'converted-then-growth', 'converted-then-removal',
                                   'converted-then-removal-of-a-converted-edge'] + _FORK_LABELS +
              ['copy-growth', 'copy-removal', 'copy-inserted', 'copies-with-different-vertex-counts-at-the-end',
-              'fork-with-last-vertex-isolated', 'fork-file:dimacs']),
+              'fork-with-last-vertex-isolated', 'fork-file:dimacs'] + _LIVE_LABELS + _LIVE_LABELS_SIMPLE),
     SubCheck('directed', run_case, strategy=_strategy('DirectedGraph'), enumerate_cases=_enumerate('DirectedGraph'),
              quick=4000, thorough=16000,
              rule="DirectedGraph(n), n=0..6, histories of 0..50 (thorough 0..200) calls of add_edge / "
                   "add_edges_from with forward edges, back edges, loops, duplicates and out-of-range arguments; "
                   "plus every history of length <=2 (thorough <=3) over 28 operations from n=0..3. " + COMMON_RULE + VIEW_RULE +
-                  FOREIGN_RULE + FORK_RULE +
+                  FOREIGN_RULE + FORK_RULE + LIVE_RULE +
                   "is_dag() must be True exactly when every inserted edge has src < dest (also after refused back "
                   "edges). Non-trivial: >=5 successful insertions.",
              required_labels=['refused', 'refused-nothing-changed', 'duplicate', 'back-edge', 'loop',
@@ -1688,12 +2056,12 @@ SUBCHECKS = [
                               '5-insertions', 'refused-zero', 'bad-initial-size'] + _VIEW_LABELS +
              ['held:edges_succ', 'held:vertices'] + _CONV_LABELS + _NUMBERING_LABELS +
              ['foreign-class-refused', 'converted-loop'] + _FORK_LABELS +
-             ['fork-with-a-loop', 'fork-file-as-dag', 'fork-file:dimacs']),
+             ['fork-with-a-loop', 'fork-file-as-dag', 'fork-file:dimacs'] + _LIVE_LABELS),
     SubCheck('bipartite', run_case, strategy=_strategy('BipartiteGraph'), enumerate_cases=_enumerate('BipartiteGraph'),
              quick=4000, thorough=16000,
              rule="BipartiteGraph(L,R), L,R=0..5, histories of 0..50 (thorough 0..200) calls of add_edge / "
                   "add_edges_from, left argument in -1..L+2 and right argument in -1..R+2; plus every history of "
-                  "length <=2 (thorough <=3) over 18 operations from L,R in 0..2. " + COMMON_RULE + VIEW_RULE + FOREIGN_RULE + FORK_RULE +
+                  "length <=2 (thorough <=3) over 18 operations from L,R in 0..2. " + COMMON_RULE + VIEW_RULE + FOREIGN_RULE + FORK_RULE + LIVE_RULE +
                   "Non-trivial: >=5 successful insertions.",
              required_labels=['refused', 'refused-nothing-changed', 'duplicate', 'swapped-sides-refused',
                               'batch-ok', 'batch-refused', 'batch-bad-in-the-middle', 'initial-size-0',
@@ -1701,7 +2069,7 @@ SUBCHECKS = [
                               'bad-initial-size'] + _VIEW_LABELS + ['held:parts'] + _CONV_LABELS +
              ['foreign-selfloop-refused', 'foreign-edge-inside-a-side-refused', 'foreign-bad-colour-refused',
               'foreign-missing-colour-refused', 'colours:int', 'colours:bool', 'colours:str',
-              'converted-edge-given-right-left', 'converted-one-empty-side'] + _FORK_LABELS + ['fork-file:matrix']),
+              'converted-edge-given-right-left', 'converted-one-empty-side'] + _FORK_LABELS + ['fork-file:matrix'] + _LIVE_LABELS),
 ]
 
 
